@@ -85,6 +85,14 @@ def model_job(job):
         return "const", ev
     c = make_config({"cloud": "map", "month": month})
     f = CloudTopHeight(c)
+    # history: before the recorded lookups the same object is asked about EVERY cell of the map once (row-major sweep over
+    # cell centres), so that anything it remembers between calls (per-cell caches, last-index shortcuts) is populated
+    if job.get("sweep", True):
+        la_c = np.radians(np.linspace(-90, 90, 361)[:-1] + 0.25)
+        lo_c = np.radians(np.linspace(-180, 180, 576)[:-1] + 180.0 / 575)
+        for a in la_c:
+            for b in lo_c:
+                f(a, b)
     for i in range(len(lat)):
         try:
             v = float(f(lat[i], lon[i]))
